@@ -736,6 +736,27 @@ func (c *Ctx) subAddr(st types.Type, i int, base string) string {
 	return sApp(fn, base)
 }
 
+// noteArrField: the memory of an array-typed field (struct type T, field i) is disjoint from
+// the array fields of every other (type, field) and from every separately allocated object.
+// Stated as ground facts between the address terms a function actually uses (no quantifiers).
+func (c *Ctx) noteArrField(sym, term string) {
+	if c.arrFieldSeen == nil {
+		c.arrFieldSeen = map[string]string{}
+	}
+	if _, ok := c.arrFieldSeen[term]; ok || len(c.arrFieldSeen) > 60 || len(term) > 300 {
+		return
+	}
+	for t2, s2 := range c.arrFieldSeen {
+		if s2 != sym {
+			c.asserts = append(c.asserts, sNot(sEq(term, t2)))
+		}
+	}
+	for _, r := range c.allocRefs {
+		c.asserts = append(c.asserts, sNot(sEq(term, r)))
+	}
+	c.arrFieldSeen[term] = sym
+}
+
 func (c *Ctx) elemAddr(t types.Type, arr, idx string) string {
 	fn := quoteSym("elem|" + typeKey(t))
 	if !c.declared[fn] {
@@ -880,6 +901,7 @@ func (c *Ctx) arrFieldAddr(st types.Type, i int, base string) string {
 		c.addAxiom(fmt.Sprintf("(forall ((r Int)) (! (and (= (%s (%s r)) r) (not (= (%s r) 0))) :pattern ((%s r))))", inv, fn, fn, fn))
 	}
 	c.groundNZ(sApp(fn, base))
+	c.noteArrField(fn, sApp(fn, base))
 	return sApp(fn, base)
 }
 
